@@ -34,6 +34,19 @@ Oracle readings recorded here (see also the final report):
     holds the marker "window resize" among keys / mouse events (first, in the middle, last on the scripted
     screens; the real screen on the pty always reports it last, so the marker is moved to the end there).  The
     redraw clause is the same: at the wait that follows, the last frame painted has the terminal's new size.
+  * "leaving the terminal in its initial modes": judged by the bytes that have ARRIVED at the terminal (the master side
+    of the pty / the read end of the pipe) at the moment run() - or Screen.stop() - is over, the screen writing through a
+    BUFFERED stream (as sys.stdout is).  A mode-restoring sequence that is still in the stream's buffer then has not
+    restored anything: it gets out at some later, unrelated flush or never (exec, kill).  The harness separates the two
+    with a marker written straight to the tty after run(), flushes the stream itself only then, and also demands that
+    what comes out late does not change a mode (PtyHarness.collect_after).
+  * "exactly the events that arrived" when an escape sequence reaches the screen in two reads, the second within
+    complete_wait of the first (step ["split", before, after, cut], real screen only): the events of both halves, once,
+    and nothing else however long the loop keeps running afterwards (step ["late-pipe", data, seconds]); a lone ESC
+    after which nothing follows is the key "esc", delivered when complete_wait is over.  If the screen's time-out for
+    the rest of a sequence fires before the harness got both halves in (observed, not guessed: PtyHarness records
+    every parse_input(wait_for_more=False)), the machine was too slow for the step to mean anything and the session's
+    order verdict is dropped ("slipped") instead of being reported.
 """
 from __future__ import annotations
 
@@ -61,7 +74,7 @@ CHECKS = {
     "C12/redraw": "at every wait of the loop the last draw shows the current application state",
     "C12/exit": "ExitMainLoop ends run() normally; any other exception leaves run() as the same object",
     "C12/display-stopped": "after run() the screen is stopped (start/stop paired, started == False)",
-    "C12/terminal-modes": "pty: normal buffer, cursor visible, mouse/bracketed-paste/focus reporting off after run()",
+    "C12/terminal-modes": "pty/pipe, buffered output stream: the bytes that reached the terminal by the time run() / stop() is over leave it in normal buffer, cursor visible, mouse/bracketed-paste/focus reporting off; so does whatever a later flush delivers",
     "C12/tty-settings": "pty: termios.tcgetattr after run() equals before",
     "C12/signal-handlers": "pty: SIGWINCH/SIGCONT/SIGTSTP handlers after run() are the ones installed before",
 }
@@ -162,6 +175,10 @@ class Harness:
         self.wait_threshold = TWISTED_IDLE_EXEMPT if case["loop"] == "twisted" else 0.0
         self.in_run = False
         self.stall_timer = None
+        self.hold_on_empty = False  # pty: an empty batch (first half of a split sequence) is not the stimulus
+        self.split_rest = None  # second half of a ["split", ...] step, written once the first half has been read
+        self.split_phase = None  # None | "p1" (first half written) | "p1-read" | "p2" (second half written)
+        self.split_step = None
 
     # ---- injection points
     def arm_stall(self, why):
@@ -196,10 +213,12 @@ class Harness:
 
     # ---- application callbacks
     def input_filter(self, keys, raw):
-        self.inflight = None
         if not keys:
             self.trace.append(["filter-empty"])
+            if not self.hold_on_empty:
+                self.inflight = None
             return keys
+        self.inflight = None
         self.trace.append(["filter", [list(k) if isinstance(k, tuple) else k for k in keys]])
         self.hit("filter")
         return [k for k in keys if k != "z"]
@@ -242,6 +261,16 @@ class Harness:
         self.drain_master()
         if self.mid_modes is None and self.master is not None:
             self.mid_modes = M.modes_summary(M.decode_modes(self.out_bytes))
+        if self.split_rest is not None:
+            # the first half of a split sequence has been read and parsed (the screen now waits complete_wait for
+            # the rest): the rest arrives at once
+            if self.split_phase == "p1-read":
+                rest, self.split_rest = self.split_rest, None
+                self.inflight, self.inflight_waits = self.split_step, 0
+                self.split_phase = "p2"
+                self.trace.append(["split-rest", rest.hex()])
+                os.write(self.master, rest)
+            return
         if self.alarms_pending > 0:
             if timeout is None:
                 self.arm_stall("loop blocks without a timeout while an alarm is pending")
@@ -573,10 +602,43 @@ def _encode_key(k):
         return b"\x0c"
     if len(k) == 1:
         return k.encode()
+    if k in KEY_BYTES:
+        return KEY_BYTES[k]
+    if k.startswith("meta ") and len(k) == 6:
+        return b"\x1b" + k[5:].encode()
     raise ValueError(k)
 
 
+# what an xterm sends for these keys (ECMA-48 / xterm ctlseqs); "esc" is the lone ESC byte
+KEY_BYTES = {
+    "up": b"\x1b[A", "down": b"\x1b[B", "right": b"\x1b[C", "left": b"\x1b[D",
+    "f5": b"\x1b[15~", "delete": b"\x1b[3~", "page up": b"\x1b[5~", "shift up": b"\x1b[1;2A", "f1": b"\x1bOP",
+    "esc": b"\x1b",
+}
+
+
 SIGS = ("SIGWINCH", "SIGCONT", "SIGTSTP")
+
+
+def split_bytes(step):
+    """["split", before, after, cut] -> (first read, second read)."""
+    _t, before, after, cut = step
+    seq = _encode_key(after[0])
+    if not (seq[:1] == b"\x1b" and 0 < cut < len(seq)):
+        raise ValueError("split: the cut must fall inside an escape sequence: %r" % (step,))
+    head = b"".join(_encode_key(k) for k in before)
+    return head + seq[:cut], seq[cut:] + b"".join(_encode_key(k) for k in after[1:])
+
+
+def _output_stream(fd, kind):
+    """The screen's output stream.  "block": a fully buffered text stream (what sys.stdout is when it is not a tty,
+    and - for the sequences in question, which hold no newline - also when it is): nothing reaches the terminal
+    before flush() or a full buffer.  "line": os.fdopen's choice for a tty (line buffered)."""
+    import io
+
+    if kind == "line":
+        return os.fdopen(fd, "w")
+    return io.TextIOWrapper(io.BufferedWriter(io.FileIO(fd, "w"), buffer_size=1 << 16), line_buffering=False, write_through=False)
 
 
 def _sig_repr(h):
@@ -588,6 +650,52 @@ def _sig_repr(h):
 
 
 class PtyHarness(Harness):
+    out_rd = out_wr = None  # where the screen's output ends up, when that is not the pty (a pipe)
+
+    def run_direct(self):
+        """No MainLoop: the screen alone is started, used and stopped (case["ops"]), every combination of its options,
+        its output going to the pty or to a pipe through a buffered stream.  Same observations as after run()."""
+        import fcntl
+        import pty
+
+        import urwid
+
+        cfg = self.case["pty"]
+        self.master, self.slave = pty.openpty()
+        fcntl.fcntl(self.master, fcntl.F_SETFL, os.O_NONBLOCK)
+        self._set_winsize(*INIT_SIZE)
+        for s in SIGS:
+            signal.signal(getattr(signal, s), signal.SIG_DFL)
+        inp = os.fdopen(self.slave, "r", closefd=False)
+        if cfg.get("to") == "pipe":
+            self.out_rd, self.out_wr = os.pipe()
+            fcntl.fcntl(self.out_rd, fcntl.F_SETFL, os.O_NONBLOCK)
+            out = _output_stream(os.dup(self.out_wr), cfg.get("out", "block"))
+        else:
+            out = _output_stream(os.dup(self.slave), cfg.get("out", "block"))
+        self._keep = (inp, out)
+        self.screen = urwid.display.raw.Screen(input=inp, output=out, bracketed_paste_mode=cfg["paste"], focus_reporting=cfg["focus"])
+        self.result["termios_before"] = self._termios()
+        self.result["sig_before"] = [_sig_repr(signal.getsignal(getattr(signal, s))) for s in SIGS]
+        self._sig_before_objs = [signal.getsignal(getattr(signal, s)) for s in SIGS]
+        cols, rows = INIT_SIZE
+        for op in self.case["ops"]:
+            self.trace.append(list(op))
+            if op[0] == "start":
+                self.screen.start(alternate_buffer=op[1])
+            elif op[0] == "stop":
+                self.screen.stop()
+            elif op[0] == "mouse":
+                self.screen.set_mouse_tracking(op[1])
+            elif op[0] == "draw":
+                self.screen.draw_screen((cols, rows), urwid.TextCanvas([b"x" * cols] * rows, maxcol=cols))
+                self.drain_master()
+                self.mid_modes = M.modes_summary(M.decode_modes(self.out_bytes))
+            else:
+                raise ValueError(op)
+        self.result["outcome"] = "returned"
+        self.collect_after()
+
     def build(self):
         import fcntl
         import pty
@@ -633,8 +741,9 @@ class PtyHarness(Harness):
 
         evl = _install_wait_hook(self.case["loop"], self)
         inp = os.fdopen(self.slave, "r", closefd=False)
-        out = os.fdopen(os.dup(self.slave), "w")
+        out = _output_stream(os.dup(self.slave), cfg.get("out", "block"))
         H = self
+        self.hold_on_empty = True
 
         class RecScreen(urwid.display.raw.Screen):
             """The real screen; only records the calls it receives, then does the real thing."""
@@ -655,6 +764,21 @@ class PtyHarness(Harness):
             def _start(self, *a, **kw):
                 H.trace.append(["start"])
                 return super()._start(*a, **kw)
+
+            def parse_input(self, event_loop, callback, codes, wait_for_more=True):
+                if not wait_for_more:
+                    # complete_wait is over: the screen gives up waiting for the rest of a sequence
+                    H.trace.append(["timeout-parse", len(codes)])
+                    if H.split_phase is not None:
+                        # ... before both halves of a split sequence were read: the machine was too slow for this
+                        # step to mean anything (the halves did NOT arrive within complete_wait of each other)
+                        H.result["slipped"] = True
+                elif codes:
+                    if H.split_phase == "p1":
+                        H.split_phase = "p1-read"
+                    elif H.split_phase == "p2":
+                        H.split_phase = None
+                return super().parse_input(event_loop, callback, codes, wait_for_more)
 
             def _stop(self):
                 H.trace.append(["stop"])
@@ -708,6 +832,16 @@ class PtyHarness(Harness):
             os.write(self.pipe_wr, step[1].encode("latin-1"))
         elif step[0] == "keys":
             os.write(self.master, b"".join(_encode_key(k) for k in step[1]))
+        elif step[0] == "late-pipe":
+            import threading
+
+            t = threading.Timer(step[2], os.write, [self.pipe_wr, step[1].encode("latin-1")])
+            t.daemon = True
+            t.start()
+        elif step[0] == "split":
+            first, rest = split_bytes(step)
+            self.split_rest, self.split_phase, self.split_step = rest, "p1", step
+            os.write(self.master, first)
         elif step[0] == "resize":
             self._set_winsize(step[1], step[2])
             self.size = (step[1], step[2])
@@ -729,12 +863,35 @@ class PtyHarness(Harness):
         else:
             raise ValueError(step)
 
+    def _read_until_marker(self, marker, timeout=5.0):
+        """Write *marker* directly to the tty and read the master side up to it; returns the bytes received since the
+        last call, marker excluded (everything is appended to self.out_bytes, markers removed)."""
+        start = len(self.out_bytes)
+        rd = self.master if self.out_rd is None else self.out_rd
+        try:
+            os.write(self.slave if self.out_wr is None else self.out_wr, marker)
+        except OSError as e:
+            self.result.setdefault("marker_error", repr(e))
+            self.drain_master()
+            return self.out_bytes[start:]
+        t_end = time.time() + timeout
+        while marker not in self.out_bytes[start:] and time.time() < t_end:
+            select.select([rd], [], [], 0.05)
+            self.drain_master()
+        if marker not in self.out_bytes[start:]:
+            self.result.setdefault("marker_error", "marker %r not seen on the master side within %.0f s" % (marker, timeout))
+            return self.out_bytes[start:]
+        i = self.out_bytes.index(marker, start)
+        got = self.out_bytes[start:i]
+        self.out_bytes = self.out_bytes[:i] + self.out_bytes[i + len(marker) :]
+        return got
+
     def drain_master(self):
         if self.master is None:
             return
         while True:
             try:
-                chunk = os.read(self.master, 65536)
+                chunk = os.read(self.master if self.out_rd is None else self.out_rd, 65536)
             except (BlockingIOError, OSError):
                 break
             if not chunk:
@@ -742,11 +899,20 @@ class PtyHarness(Harness):
             self.out_bytes += chunk
 
     def collect_after(self):
+        # The terminal's modes are judged by the bytes that have ARRIVED at the terminal (the master side) now that
+        # run() is over - not by what was handed to the output stream: whatever still sits in the stream's buffer may
+        # never get out (exec, kill, crash) and gets out late at best.  A marker written straight to the tty after
+        # run() separates the two (a tty is FIFO).  Only then the harness flushes the stream itself, to see what was
+        # left behind.
+        self._read_until_marker(b"<<C12:run-over>>")
+        n_arrived = len(self.out_bytes)
         try:
             self._keep[1].flush()
         except Exception as e:  # noqa: BLE001
             self.result["flush_error"] = repr(e)
-        self.drain_master()
+        late = self._read_until_marker(b"<<C12:flushed>>")
+        self.result["late_bytes"] = late.decode("latin-1")[-200:]
+        self.result["modes_after_flush"] = M.modes_summary(M.decode_modes(self.out_bytes))
         self.result["started_after"] = bool(self.screen.started)
         self.result["termios_after"] = self._termios()
         try:
@@ -758,7 +924,7 @@ class PtyHarness(Harness):
         self.result["sig_after"] = [_sig_repr(h) for h in after]
         self.result["sig_same"] = [a is b or a == b for a, b in zip(after, self._sig_before_objs)]
         self.result["modes_mid"] = self.mid_modes
-        self.result["modes_after"] = M.modes_summary(M.decode_modes(self.out_bytes))
+        self.result["modes_after"] = M.modes_summary(M.decode_modes(self.out_bytes[:n_arrived]))
         self.result["out_tail"] = self.out_bytes[-160:].decode("latin-1")
         self.result["out_len"] = len(self.out_bytes)
 
@@ -774,7 +940,10 @@ def _child_main(case, wfd, watchdog_s):
         import logging
 
         logging.disable(logging.CRITICAL)
-        H = (PtyHarness if case["screen"] == "pty" else FakeHarness)(case, finish)
+        H = (PtyHarness if case["screen"] in ("pty", "pty_direct") else FakeHarness)(case, finish)
+        if case["screen"] == "pty_direct":
+            H.run_direct()
+            finish(H.result)
 
         def watchdog():
             time.sleep(watchdog_s)
@@ -922,6 +1091,34 @@ def _run_cases_flat(cases, procs, watchdog_s, kill_s):
 CALLBACK_EVENTS = ("filter", "keypress", "mouse", "unhandled", "clear", "alarm", "pipe")
 
 
+def _judge_terminal(case, res, out, nontrivial):
+    probs = []
+    if res.get("modes_after") != M.INITIAL_SUMMARY:
+        probs.append(
+            "modes decoded from the bytes that had reached the terminal when run() was over: %r%s"
+            % (res.get("modes_after"), (" (still in the output stream's buffer: %r)" % res["late_bytes"]) if res.get("late_bytes") else "")
+        )
+    if res.get("modes_after_flush") != M.INITIAL_SUMMARY:
+        probs.append("modes once the output stream was flushed by the harness: %r" % (res.get("modes_after_flush"),))
+    if res.get("marker_error"):
+        probs.append("harness: %s" % res["marker_error"])
+    if res.get("flush_error"):
+        probs.append("output flush failed: %s" % res["flush_error"])
+    out["C12/terminal-modes"] = (not probs, "; ".join(probs), nontrivial)
+    ok = res.get("termios_after") == res.get("termios_before") and isinstance(res.get("termios_before"), list)
+    why = ""
+    if not ok:
+        why = "tcgetattr differs: before %r after %r%s" % (
+            res.get("termios_before"),
+            res.get("termios_after"),
+            "" if res.get("input_fd_open_after", True) else " (and the tty input descriptor was closed during run())",
+        )
+    out["C12/tty-settings"] = (ok, why, nontrivial)
+    ok = all(res.get("sig_same", [False]))
+    why = "" if ok else "handlers of %s: before %r after %r" % ("/".join(SIGS), res.get("sig_before"), res.get("sig_after"))
+    out["C12/signal-handlers"] = (ok, why, nontrivial)
+
+
 def judge(case, res):
     """-> {check_name: (ok, why, nontrivial)} for the clauses that apply to this case."""
     out = {}
@@ -929,6 +1126,13 @@ def judge(case, res):
         bad = (False, "harness error: %s" % res["harness_error"], True)
         return {"C12/exit": bad}
     trace = res.get("trace", [])
+    if case["screen"] == "pty_direct":
+        if res.get("hung"):
+            return {"C12/exit": (False, "screen start/stop did not end: %s" % res["hung"], True)}
+        ok = res.get("started_after") is False
+        out["C12/display-stopped"] = (ok, "" if ok else "screen.started after stop() = %r" % (res.get("started_after"),), True)
+        _judge_terminal(case, res, out, True)
+        return out
     pop_ups = bool(case["pop_ups"])
     inj = case.get("inject")
     fired = next((e for e in trace if e[0] == "raise"), None)
@@ -990,6 +1194,10 @@ def judge(case, res):
             exp[k] if k < len(exp) else "<end>",
             upto[k] if k < len(upto) else "<end>",
         )
+    if res.get("slipped"):
+        # a split sequence whose halves did not make it within complete_wait (slow machine): the step says nothing
+        ok, why = True, ""
+        upto = []
     out["C12/order"] = (ok, why, len(upto) > 0)
 
     # ---- redraw clause: at every wait the last draw shows the state after all callbacks so far
@@ -1036,25 +1244,7 @@ def judge(case, res):
     # ---- terminal state (pty only): escape-sequence modes, tty settings, signal handlers
     if case["screen"] == "pty":
         mid = res.get("modes_mid") or {}
-        nontrivial = bool(mid.get("alternate_buffer"))
-        probs = []
-        if res.get("modes_after") != M.INITIAL_SUMMARY:
-            probs.append("modes decoded from the bytes written to the terminal, after run(): %r" % (res.get("modes_after"),))
-        if res.get("flush_error"):
-            probs.append("output flush failed: %s" % res["flush_error"])
-        out["C12/terminal-modes"] = (not probs, "; ".join(probs), nontrivial)
-        ok = res.get("termios_after") == res.get("termios_before") and isinstance(res.get("termios_before"), list)
-        why = ""
-        if not ok:
-            why = "tcgetattr differs: before %r after %r%s" % (
-                res.get("termios_before"),
-                res.get("termios_after"),
-                "" if res.get("input_fd_open_after", True) else " (and the tty input descriptor was closed during run())",
-            )
-        out["C12/tty-settings"] = (ok, why, nontrivial)
-        ok = all(res.get("sig_same", [False]))
-        why = "" if ok else "handlers of %s: before %r after %r" % ("/".join(SIGS), res.get("sig_before"), res.get("sig_after"))
-        out["C12/signal-handlers"] = (ok, why, nontrivial)
+        _judge_terminal(case, res, out, bool(mid.get("alternate_buffer")))
     return out
 
 
@@ -1149,7 +1339,68 @@ PTY_CFGS = [
     {"mouse": False, "paste": False, "focus": False, "sig": "dfl", "termios": "alt"},
     {"mouse": True, "paste": False, "focus": True, "sig": "ign", "termios": "default"},
     {"mouse": True, "paste": True, "focus": False, "sig": "dfl", "termios": "default"},
+    # (the other four combinations of the three reporting options; "out": how the output stream buffers)
+    {"mouse": False, "paste": True, "focus": True, "sig": "dfl", "termios": "default"},
+    {"mouse": False, "paste": True, "focus": False, "sig": "custom", "termios": "alt", "out": "line"},
+    {"mouse": False, "paste": False, "focus": True, "sig": "ign", "termios": "default"},
+    {"mouse": True, "paste": False, "focus": False, "sig": "dfl", "termios": "alt", "out": "line"},
 ]
+
+# Escape sequences that reach the screen in two reads (the cut at every byte boundary inside the sequence); the
+# events of `before` are complete in the first read.  One group = the split steps of one session.
+SPLITS = [
+    [[[], ["up"], 1], [["a"], ["up", "x"], 2], [[], [["mouse press", 1, 0, 0]], 3], [["x"], ["f5"], 4], [[], ["meta y"], 1], [[], ["shift up"], 5]],
+    [[["a", "x"], [["mouse press", 2, 2, 1], "a"], 1], [[], ["f5"], 2], [[], [["mouse release", 0, 2, 1]], 5], [[], ["delete"], 3], [["x"], ["f1"], 2], [[], ["page up", "a"], 1]],
+    [[[], [["mouse press", 1, 0, 0]], c] for c in (2, 4)] + [[[], ["shift up"], c] for c in (1, 2, 3, 4)],
+    [[[], ["f5"], c] for c in (1, 3)] + [[["a"], ["left"], 2], [[], ["f1"], 1], [["x"], ["right"], 1], [[], ["down", "x"], 2]],
+]
+LATE_S = 0.3  # the loop is kept running this long after the last split step (the screen's complete_wait is 0.125 s)
+
+
+def split_session(group, tail="both"):
+    """Keys, then the split sequences of SPLITS[group] (ordinary keys between some of them), then the loop keeps
+    running - nothing arrives - for LATE_S, then a lone ESC (complete only by time-out), then the end."""
+    s = [["keys", ["a", "x"]]]
+    for i, (before, after, cut) in enumerate(SPLITS[group]):
+        s.append(["split", before, after, cut])
+        if i % 2:
+            s.append(["keys", ["x", "up"] if i % 4 == 1 else ["a"]])
+    if tail in ("both", "late"):
+        s.append(["late-pipe", "p", LATE_S])
+    if tail in ("both", "esc"):
+        s.append(["keys", ["esc"]])
+        s.append(["keys", ["a", "left"]])
+    s.append(["keys", ["Q"]])
+    return s
+
+
+def direct_cases(quick):
+    """The screen alone: start(alternate_buffer) / set_mouse_tracking / draw_screen / stop for every combination of
+    alternate buffer x bracketed paste x focus reporting x mouse tracking (never, switched on before start, after
+    start, on and off again), output to the pty or to a pipe; plus stop-and-start-again histories."""
+    out = []
+
+    def add(paste, focus, to, ops, kind="block"):
+        cfg = {"mouse": False, "paste": paste, "focus": focus, "sig": "dfl", "termios": "default", "to": to, "out": kind}
+        out.append({"screen": "pty_direct", "loop": "none", "pop_ups": False, "session": [], "inject": None, "pty": cfg, "ops": ops})
+
+    for ab in (True, False):
+        for paste in (False, True):
+            for focus in (False, True):
+                for mouse in ("never", "before", "after", "on-off"):
+                    ops = [["start", ab], ["draw"], ["stop"]]
+                    if mouse == "before":
+                        ops.insert(0, ["mouse", True])
+                    elif mouse == "after":
+                        ops.insert(1, ["mouse", True])
+                    elif mouse == "on-off":
+                        ops[1:1] = [["mouse", True], ["draw"], ["mouse", False]]
+                    for to in ("pty", "pipe"):
+                        add(paste, focus, to, ops)
+    for paste, focus in ((True, True), (True, False), (False, True)):
+        add(paste, focus, "pty", [["start", True], ["draw"], ["stop"], ["start", False], ["mouse", True], ["draw"], ["stop"]])
+        add(paste, focus, "pipe", [["mouse", True], ["start", False], ["stop"], ["stop"], ["start", True], ["draw"], ["stop"]], "line")
+    return out
 
 
 def injections(max_idx=6, excs=EXCS):
@@ -1224,6 +1475,17 @@ def build_cases(tier, seed):
         for _ in range(n_random):
             add("pty", loop, bool(n % 2), for_pty(random_session(r, 12)), None, PTY_CFGS[n % len(PTY_CFGS)])
             n += 1
+    # (c) the real screen, escape sequences split over two reads, the loop kept running past complete_wait
+    for li, loop in enumerate(loops):
+        groups = range(len(SPLITS)) if (not quick or loop in core) else ((2 * li) % len(SPLITS), (2 * li + 1) % len(SPLITS))
+        for g in groups:
+            add("pty", loop, bool((g + li) % 2), split_session(g), None, PTY_CFGS[(g + li) % len(PTY_CFGS)])
+        if not quick:
+            for g in range(len(SPLITS)):
+                for inj in ({"kind": "keypress", "idx": 3, "exc": "exc"}, {"kind": "unhandled", "idx": 2, "exc": "exit"}):
+                    add("pty", loop, bool(g % 2), split_session(g), inj, PTY_CFGS[(g + li + 1) % len(PTY_CFGS)])
+    # (d) the real screen without a MainLoop: every option combination, start ... stop
+    cases.extend(direct_cases(quick))
     return cases, loops
 
 
@@ -1252,10 +1514,15 @@ def run(tier="quick", seed=0) -> dict:
     skipped = [l for l in ALL_LOOPS if l not in loops]
     bound = (
         "%d forked sessions: loops %s%s; screens fake+hook / fake without hook (select only) / raw Screen on a pty "
-        "(%d configurations of mouse, bracketed paste, focus reporting, initial signal handlers, initial termios); "
+        "with a buffered output stream, terminal modes judged by the bytes that reached the master side when run() was "
+        "over (%d configurations: all 8 of mouse x bracketed paste x focus reporting, initial signal handlers, initial "
+        "termios, block/line buffering); "
         "pop_ups on/off; %d-stimulus cyclic sessions and random sessions, resizes alone and inside a batch of keys / "
         "mouse events (marker first, in the middle, last; last only on the pty); injection of ExitMainLoop/Exception/"
-        "KeyboardInterrupt at invocation index 0..6 of %s"
+        "KeyboardInterrupt at invocation index 0..6 of %s; pty: %d groups of 6 escape sequences (arrows, function keys, "
+        "modified arrows, SS3, ESC-prefixed key, X10 mouse reports) split over two reads at byte offsets 1..5, the loop "
+        "kept running %.1f s after them, a lone ESC; %d start/stop histories of the screen alone (alternate buffer x "
+        "paste x focus x mouse never/before/after/on-off x output to pty/pipe, restarts)"
         % (
             len(cases),
             ",".join(loops),
@@ -1263,6 +1530,9 @@ def run(tier="quick", seed=0) -> dict:
             len(PTY_CFGS),
             len(make_session("KMTPXRL")),
             "/".join(KINDS),
+            len(SPLITS),
+            LATE_S,
+            len(direct_cases(tier == "quick")),
         )
     )
     checks = {name: Check(name, rule, exhaustive=True, bound=bound) for name, rule in CHECKS.items()}
